@@ -3,7 +3,11 @@ package shapecase
 import (
 	"math"
 	"math/bits"
+	"os"
+	"path/filepath"
 	"sort"
+	"strconv"
+	"strings"
 	"sync"
 	"unicode/utf8"
 
@@ -479,6 +483,73 @@ func Params(s Source, c *Case, info *FaceInfo, o Opts) {
 	}
 }
 
+// ---- upstream (font, text) pairs ----
+
+// Pair is one line of the upstream HarfBuzz expectation files shipped with the corpus: a text chosen
+// to suit its font.
+type Pair struct {
+	Face int // index into ThePool().All
+	Text []rune
+}
+
+var (
+	pairsOnce sync.Once
+	pairs     []Pair
+)
+
+// UpstreamPairs parses harfbuzz/harfbuzz_reference/*/tests/*.tests (sorted, deterministic).
+func UpstreamPairs() []Pair {
+	pairsOnce.Do(func() {
+		p := ThePool()
+		index := map[string]int{}
+		for i, f := range p.All {
+			if f.Index == 0 {
+				index[f.File] = i
+			}
+		}
+		root := filepath.Join(corpus.Dir(), "harfbuzz", "harfbuzz_reference")
+		var files []string
+		filepath.Walk(root, func(path string, info os.FileInfo, err error) error {
+			if err == nil && !info.IsDir() && strings.HasSuffix(path, ".tests") {
+				files = append(files, path)
+			}
+			return nil
+		})
+		sort.Strings(files)
+		for _, fp := range files {
+			b, err := os.ReadFile(fp)
+			if err != nil {
+				continue
+			}
+			for _, line := range strings.Split(string(b), "\n") {
+				parts := strings.Split(line, ";")
+				if len(parts) < 4 || strings.HasPrefix(parts[0], "#") {
+					continue
+				}
+				rel, err := filepath.Rel(corpus.Dir(), filepath.Join(filepath.Dir(fp), parts[0]))
+				if err != nil {
+					continue
+				}
+				fi, ok := index[rel]
+				if !ok {
+					continue
+				}
+				var rs []rune
+				for _, u := range strings.Split(parts[2], ",") {
+					v, err := strconv.ParseUint(strings.TrimPrefix(strings.TrimSpace(u), "U+"), 16, 32)
+					if err == nil {
+						rs = append(rs, rune(v))
+					}
+				}
+				if len(rs) > 0 {
+					pairs = append(pairs, Pair{Face: fi, Text: rs})
+				}
+			}
+		}
+	})
+	return pairs
+}
+
 // FontPoolSize is the size of the sorted sample of the font's own mapped runes used for text.
 const FontPoolSize = 256
 
@@ -486,6 +557,36 @@ const FontPoolSize = 256
 func Draw(t *rapid.T, face int, o Opts) Case {
 	p := ThePool()
 	s := RapidSource{T: t}
+	maxLen := o.MaxLen
+	if maxLen <= 0 {
+		maxLen = 64
+	}
+	if up := UpstreamPairs(); face < 0 && len(up) > 0 && s.Intn("upstreampair", 8) == 0 {
+		// a text the upstream suite shapes with this very font (reaches font-specific lookups that
+		// random text seldom triggers), as is, cut, or with a generated prefix/suffix
+		pr := up[s.Intn("pair", len(up))]
+		f := p.All[pr.Face]
+		c := Case{Font: f.File, Index: f.Index}
+		text := pr.Text
+		switch s.Intn("pairedit", 4) {
+		case 1:
+			a := s.Intn("cutfrom", len(text))
+			text = text[a : a+1+s.Intn("cutlen", len(text)-a)]
+		case 2, 3:
+			extra := textgen.Text(t, textgen.Opts{MaxLen: 6, FontPool: textgen.FontRunes(f.Face.Font, FontPoolSize), Hostile: 30, NoInvalid: o.ValidOnly})
+			if s.Intn("prefix", 2) == 0 {
+				text = append(append([]rune(nil), extra...), text...)
+			} else {
+				text = append(append([]rune(nil), text...), extra...)
+			}
+		}
+		if len(text) > maxLen {
+			text = text[:maxLen]
+		}
+		c.Text = append([]rune{}, text...)
+		Params(s, &c, &p.Info[pr.Face], o)
+		return c
+	}
 	if face < 0 {
 		face = p.DrawFace(s)
 	}
@@ -497,10 +598,6 @@ func Draw(t *rapid.T, face int, o Opts) Case {
 	if len(info.Alphabets) > 0 && s.Intn("ownscripts", 10) < 7 {
 		scripts = append(scripts, info.Alphabets...)
 		scripts = append(scripts, "latin")
-	}
-	maxLen := o.MaxLen
-	if maxLen <= 0 {
-		maxLen = 64
 	}
 	c.Text = textgen.Text(t, textgen.Opts{
 		MaxLen: maxLen, FontPool: textgen.FontRunes(f.Face.Font, FontPoolSize), Scripts: scripts, Hostile: 12, NoInvalid: o.ValidOnly,
